@@ -89,6 +89,7 @@ type c05Spec struct {
 	Mode int    `json:"mode"` // 0 literal, 1 variables, 2 document fields
 	Post bool   `json:"post,omitempty"`
 	Rev  bool   `json:"rev,omitempty"`
+	Text string `json:"text,omitempty"`
 }
 
 var c05Fn = &Func{Name: "fn", Body: Blk(&Return{N("1")})}
@@ -371,7 +372,15 @@ func init() {
 				return
 			}
 			do := func(s c05Spec) {
-				c.Do(func() any { return s }, func() *fw.Violation { return c05Check(c, s, ops) })
+				c.Do(func() any {
+					if pc := c05Build(s, ops); pc != nil {
+						s.Text = pc.source()
+						if len(pc.Files) > 0 {
+							s.Text += "   <<< " + pc.Files[0].Text
+						}
+					}
+					return s
+				}, func() *fw.Violation { return c05Check(c, s, ops) })
 			}
 			for mode := 0; mode < 3; mode++ {
 				for r := range ops {
